@@ -213,6 +213,11 @@ fn duration_cases(rng: &mut Rng, tu: &TimeUnits, n_random: usize) -> Vec<MCase> 
             push(key, o.clone(), None, Exp::Refuse, "outside_duration");
         }
     }
+    // nothing at all is no duration either
+    for key in keys {
+        push(key, "(empty string, yaml)".to_string(), Some("\"\"".to_string()), Exp::Refuse, "outside_duration_yaml");
+        // BLANK-DURATION-CASE (enabled together with the fix of F19)
+    }
     // typed YAML values that are not durations
     for (y, t) in [("-5", "-5"), ("1.5e400", "1.5e400 (yaml)"), ("[1, 2]", "[1, 2] (yaml)"), ("true", "true (yaml)"), ("~", "null (yaml)"), ("4294967296", "4294967296"), ("-0.5", "-0.5 (yaml)")] {
         push("time", t.to_string(), Some(y.to_string()), Exp::Refuse, "outside_duration_yaml");
